@@ -409,7 +409,11 @@ def _td7_loop(ck, repo, nf, afn):
     tsfn = repo.func("rl_blox.algorithm.td7._train_step")
     tcall = next(x for m in ts_nodes[:1] for x in ast.walk(m.ast) if isinstance(x, ast.Call) and isinstance(x.func, (ast.Name, ast.Attribute)) and repo.resolve_expr(mi, x.func) == "rl_blox.algorithm.td7._train_step")
     trained = bind_call(tsfn, tcall).get("policy")
-    for hn, hc, hkind, (oe, te), hkey in hcalls:
+    # the checkpoint copy is the hard copy whose source is the trained policy as a whole (other target updates of the loop are C06's)
+    cps = [h for h in hcalls if trained is not None and ast.dump(h[3][0]) == ast.dump(trained)]
+    if not cps:
+        raise AnalysisError(f"{TQ}: no copy of the trained policy `{short(trained) if trained is not None else None}` found among the target updates (unrecognised form)")
+    for hn, hc, hkind, (oe, te), hkey in cps:
         gl = []
         for bnode, lab in cfg.control_deps(hn):
             bn = cfg.nodes[bnode]
